@@ -279,6 +279,7 @@ pub struct PolGenCfg {
     pub timelocks: bool,
     pub hashes: bool,
     pub max_depth: usize,
+    pub timelock_heavy: bool,
 }
 
 pub struct PolGen<'r> {
@@ -295,7 +296,7 @@ impl<'r> PolGen<'r> {
         if self.cfg.constants && r < 8 {
             return if self.rng.coin() { Pol::Trivial } else { Pol::Unsat };
         }
-        if self.cfg.timelocks && (8..22).contains(&r) {
+        if self.cfg.timelocks && ((8..22).contains(&r) || (self.cfg.timelock_heavy && r >= 50)) {
             return if self.rng.coin() {
                 Pol::Atom(Atom::After(*self.rng.pick(&POL_AFTER)))
             } else {
